@@ -442,3 +442,630 @@ Proof.
   { induction es as [|e es IH]; intros s H; cbn; [exact H|]. apply IH, step_inv, H. }
   apply G, init_inv.
 Qed.
+
+(* ---- the ghost histories are what the outputs say ------------------------------------ *)
+
+Definition acc_bytes (x : side) (e : ev) (o : res) : list N :=
+  match e, o with
+  | TryWrite z bs, ROkN _ => if side_eqb z x then bs else []
+  | Write z bs, ROkN _ => if side_eqb z x then bs else []
+  | _, _ => []
+  end.
+Definition read_bytes (y : side) (e : ev) (o : res) : list N :=
+  match e, o with
+  | Read z _, ROkBytes bs => if side_eqb z y then bs else []
+  | _, _ => []
+  end.
+Fixpoint accepted (x : side) (es : list ev) (os : list res) : list N :=
+  match es, os with
+  | e :: es', o :: os' => acc_bytes x e o ++ accepted x es' os'
+  | _, _ => []
+  end.
+Fixpoint reads (y : side) (es : list ev) (os : list res) : list N :=
+  match es, os with
+  | e :: es', o :: os' => read_bytes y e o ++ reads y es' os'
+  | _, _ => []
+  end.
+
+Lemma deliver1_ghost s z p :
+  gsent (deliver1 s z p) = gsent s /\ gread (deliver1 s z p) = gread s /\ gpop (deliver1 s z p) = gpop s.
+Proof.
+  unfold deliver1. destruct (recv_ep (cap s) (eps s z) p) as [e [|r l]]; cbn; [auto|].
+  destruct (lo s); cbn; [auto|]. unfold net_send. cbn. destruct (cut s z); cbn; auto.
+Qed.
+
+Lemma deliver_list_ghost l : forall s z,
+  gsent (deliver_list s z l) = gsent s /\ gread (deliver_list s z l) = gread s.
+Proof.
+  induction l as [|p l IH]; intros s z; cbn; [auto|].
+  destruct (IH (deliver1 s z p) z) as [-> ->]. destruct (deliver1_ghost s z p) as (-> & -> & _). auto.
+Qed.
+
+Lemma loop_fold_ghost pend : forall s,
+  gsent (fold_left (fun s' m => deliver1 s' (other (fst m)) (snd m)) pend s) = gsent s /\
+  gread (fold_left (fun s' m => deliver1 s' (other (fst m)) (snd m)) pend s) = gread s.
+Proof.
+  induction pend as [|m pend IH]; intros s; cbn; [auto|].
+  destruct (IH (deliver1 s (other (fst m)) (snd m))) as [-> ->].
+  destruct (deliver1_ghost s (other (fst m)) (snd m)) as (-> & -> & _). auto.
+Qed.
+
+Lemma bytes_of_snoc l sg : bytes_of (l ++ [sg]) = bytes_of l ++ payload sg.
+Proof. rewrite bytes_of_app. cbn. now rewrite app_nil_r. Qed.
+
+Lemma step_ghost s e x :
+  bytes_of (gsent (fst (step s e)) x) = bytes_of (gsent s x) ++ acc_bytes x e (snd (step s e)) /\
+  gread (fst (step s e)) x = gread s x ++ read_bytes x e (snd (step s e)).
+Proof.
+  destruct e; cbn [step].
+  - (* TryWrite *) unfold op_try_write, stamp_send, emit, net_send.
+    destruct (wr (eps s x0)) as [[|]|]; destruct bs; cbn; rewrite ?app_nil_r; auto;
+      destruct (cred s x0); cbn; rewrite ?app_nil_r; auto;
+      destruct (sk (eps s x0)); cbn; rewrite ?app_nil_r; auto;
+      destruct (cut s x0); destruct x, x0; cbn; rewrite ?bytes_of_snoc, ?app_nil_r; auto.
+  - (* Write *) unfold op_try_write, stamp_send, emit, net_send.
+    destruct (wr (eps s x0)) as [[|]|]; destruct bs; cbn; rewrite ?app_nil_r; auto;
+      destruct (cred s x0); cbn; rewrite ?app_nil_r; auto;
+      destruct (sk (eps s x0)); cbn; rewrite ?app_nil_r; auto;
+      destruct (cut s x0); destruct x, x0; cbn; rewrite ?bytes_of_snoc, ?app_nil_r; auto.
+  - (* Shutdown *) unfold op_shutdown, stamp_send, emit, net_send.
+    destruct (wr (eps s x0)) as [[|]|]; cbn; rewrite ?app_nil_r; auto;
+      destruct (sk (eps s x0)); cbn; rewrite ?app_nil_r; auto;
+      destruct (cut s x0); destruct x, x0; cbn; rewrite ?bytes_of_snoc, ?app_nil_r; auto.
+  - (* DropW *) unfold op_drop_w, stamp_send, emit, net_send.
+    destruct (wr (eps s x0)) as [[|]|]; cbn; rewrite ?app_nil_r; auto;
+      destruct (sk (eps s x0)); cbn; rewrite ?app_nil_r; auto;
+      destruct (cut s x0); destruct x, x0; cbn; rewrite ?bytes_of_snoc, ?app_nil_r; auto.
+  - (* Read *) unfold op_read, after_pop.
+    destruct (rd (eps s x0)) as [r|]; cbn; rewrite ?app_nil_r; auto.
+    destruct (closed r || Nat.eqb n 0); cbn; [destruct (side_eqb x0 x); rewrite ?app_nil_r; auto|].
+    destruct (stash r) as [bs|].
+    + destruct (take_stash bs n) as [out rest]. destruct x, x0; cbn; rewrite ?app_nil_r; auto.
+    + destruct (chan (eps s x0)) as [|[bs|] ch]; cbn; rewrite ?app_nil_r; auto.
+      * destruct (is_some (sk (eps s x0))); cbn; rewrite ?app_nil_r; auto.
+      * destruct (take_stash bs n) as [out rest]. destruct x, x0; cbn; rewrite ?app_nil_r; auto.
+      * destruct x, x0; cbn; rewrite ?app_nil_r; auto.
+  - (* Peek *) unfold op_peek, after_pop.
+    destruct (rd (eps s x0)) as [r|]; cbn; rewrite ?app_nil_r; auto.
+    destruct (closed r || Nat.eqb n 0); cbn; rewrite ?app_nil_r; auto.
+    destruct (stash r) as [bs|]; cbn; rewrite ?app_nil_r; auto.
+    destruct (chan (eps s x0)) as [|[bs|] ch]; cbn; rewrite ?app_nil_r; auto.
+  - (* DropR *) unfold op_drop_r, emit, net_send.
+    destruct (rd (eps s x0)) as [r|]; cbn; rewrite ?app_nil_r; auto.
+    match goal with |- context [if ?c then _ else _] => destruct c end; cbn; rewrite ?app_nil_r; auto.
+    destruct (cut s x0); cbn; rewrite ?app_nil_r; auto.
+  - unfold mature. destruct (split_wire 0 ks (wire s)). cbn. rewrite ?app_nil_r; auto.
+  - unfold mature. destruct (split_wire _ _ (wire s)). cbn. rewrite ?app_nil_r; auto.
+  - cbn. destruct (deliver_list_ghost (rdy s x0) (set_rdy s x0 []) x0) as [-> ->]. cbn. rewrite ?app_nil_r; auto.
+  - cbn. rewrite ?app_nil_r; auto.
+  - cbn. rewrite ?app_nil_r; auto.
+  - cbn. rewrite ?app_nil_r; auto.
+  - cbn. rewrite ?app_nil_r; auto.
+  - cbn. match goal with |- context [fold_left ?f ?l ?s0] => destruct (loop_fold_ghost l s0) as [-> ->] end.
+    cbn. rewrite ?app_nil_r; auto.
+  - cbn. rewrite ?app_nil_r; auto.
+Qed.
+
+Lemma run_ghost es : forall s x,
+  bytes_of (gsent (fst (run s es)) x) = bytes_of (gsent s x) ++ accepted x es (snd (run s es)) /\
+  gread (fst (run s es)) x = gread s x ++ reads x es (snd (run s es)).
+Proof.
+  induction es as [|e es IH]; intros s x; cbn.
+  - rewrite !app_nil_r. auto.
+  - destruct (step_ghost s e x) as [G1 G2]. destruct (step s e) as [s1 o] eqn:E. cbn in G1, G2.
+    destruct (IH s1 x) as [I1 I2]. destruct (run s1 es) as [s2 os]. cbn in *.
+    rewrite I1, I2, G1, G2, <- !app_assoc. auto.
+Qed.
+
+(* C02 safety: whatever happens (any delivery order, loss, resets, drops on
+   either side), the bytes returned by the reads of one end are a prefix of the
+   bytes the other end's writes accepted. *)
+Lemma c02_prefix_lemma cp loop es x :
+  prefix (reads (other x) es (snd (run (init cp loop) es)))
+         (accepted x es (snd (run (init cp loop) es))).
+Proof.
+  pose proof (reach_inv cp loop es x) as H. rewrite <- run_final in H.
+  destruct (run_ghost es (init cp loop) x) as [G1 _].
+  destruct (run_ghost es (init cp loop) (other x)) as [_ G2].
+  cbn in G1, G2. unfold dirinv in H. apply DI_prefix_read in H. rewrite G1, G2 in H. exact H.
+Qed.
+
+(* a peek shows bytes that continue what was read so far *)
+Lemma peek_out s y n s' bs :
+  op_peek s y n = (s', ROkBytes bs) ->
+  exists r', rd (eps s' y) = Some r' /\ (closed r' = false -> prefix bs (stash_bytes r')) /\
+             (closed r' = true -> bs = []).
+Proof.
+  unfold op_peek, after_pop. destruct (rd (eps s y)) as [r|] eqn:Erd; [|discriminate].
+  destruct (closed r) eqn:Ecl; cbn [orb].
+  { intros [= <- <-]. exists r. rewrite Erd. split; [reflexivity|]. split; [congruence|reflexivity]. }
+  destruct (Nat.eqb n 0) eqn:En.
+  { intros [= <- <-]. exists r. rewrite Erd. split; [reflexivity|]. split; [|reflexivity].
+    intros _. exists (stash_bytes r). reflexivity. }
+  destruct (stash r) as [full|] eqn:Est.
+  { intros [= <- <-]. exists r. rewrite Erd. split; [reflexivity|]. split; [|congruence].
+    intros _. unfold stash_bytes. rewrite Est. apply prefix_firstn. }
+  destruct (chan (eps s y)) as [|[full|] ch]; [destruct (is_some _); discriminate| |].
+  - intros [= <- <-]. destruct y; cbn.
+    + eexists. split. { reflexivity. } cbn. split. { intros _. apply prefix_firstn. } discriminate.
+    + eexists. split. { reflexivity. } cbn. split. { intros _. apply prefix_firstn. } discriminate.
+  - intros [= <- <-]. destruct y; cbn.
+    + eexists. split. { reflexivity. } cbn. split. { discriminate. } reflexivity.
+    + eexists. split. { reflexivity. } cbn. split. { discriminate. } reflexivity.
+Qed.
+
+Lemma final_app es1 : forall s es2, final s (es1 ++ es2) = final (final s es1) es2.
+Proof. induction es1 as [|e es1 IH]; intros s es2; cbn; [reflexivity|apply IH]. Qed.
+
+Lemma c02_peek_lemma cp loop es y n s' bs :
+  step (final (init cp loop) es) (Peek y n) = (s', ROkBytes bs) ->
+  prefix (reads y es (snd (run (init cp loop) es)) ++ bs)
+         (accepted (other y) es (snd (run (init cp loop) es))).
+Proof.
+  intros Hp.
+  assert (Hx : y = other (other y)) by (destruct y; reflexivity).
+  pose proof (reach_inv cp loop (es ++ [Peek y n]) (other y)) as H.
+  rewrite final_app in H. cbn [final] in H. rewrite Hp in H. cbn [fst] in H.
+  unfold dirinv in H. rewrite <- Hx in H.
+  pose proof (step_ghost (final (init cp loop) es) (Peek y n)) as G. rewrite Hp in G. cbn in G.
+  cbn [step] in Hp.
+  destruct (peek_out _ _ _ _ _ Hp) as (r' & Hr' & Hopen & Hclosed).
+  destruct (G (other y)) as [G1 _]. destruct (G y) as [_ G2]. rewrite !app_nil_r in *.
+  destruct (run_ghost es (init cp loop) (other y)) as [R1 _].
+  destruct (run_ghost es (init cp loop) y) as [_ R2]. rewrite run_final in R1, R2. cbn in R1, R2.
+  rewrite <- R2, <- R1, <- G1, <- G2.
+  destruct (closed r') eqn:Ecl.
+  - rewrite (Hclosed eq_refl), app_nil_r. eapply DI_prefix_read; eauto.
+  - pose proof (DI_prefix _ _ _ _ _ _ _ _ _ _ _ _ _ _ H r' Hr') as P.
+    destruct (Hopen eq_refl) as [c Hc]. rewrite Hc in P. rewrite app_assoc in P.
+    eapply prefix_trans; [apply prefix_app|exact P].
+Qed.
+
+(* ---- the reorder buffer is never left drainable (what fix 3a3f8b8 restores) ----------- *)
+
+(* with a live reader, the next expected segment sits in the reorder buffer only
+   while the channel is full *)
+Definition exit_ep (cp : nat) (e : endpoint) : Prop :=
+  forall k, sk e = Some k -> rd e <> None ->
+            lookup (recv_seq k + 1)%N (buf k) <> None -> length (chan e) = cp.
+Definition exit_all (s : sys) : Prop := forall y, exit_ep (cap s) (eps s y).
+
+Lemma exit_sk_none cp e : sk e = None -> exit_ep cp e.
+Proof. intros H k Hk. congruence. Qed.
+Lemma exit_rd_none cp e : rd e = None -> exit_ep cp e.
+Proof. intros H k _ Hr. congruence. Qed.
+Lemma exit_same cp e e' :
+  rx_of e' = rx_of e -> chan e' = chan e -> (rd e' <> None -> rd e <> None) ->
+  exit_ep cp e -> exit_ep cp e'.
+Proof.
+  unfold exit_ep, rx_of. intros Hrx Hch Hrd H k Hk Hr Hl.
+  rewrite Hk in Hrx. destruct (sk e) as [k0|]; [|discriminate]. injection Hrx as E1 E2.
+  rewrite Hch. apply (H k0 eq_refl (Hrd Hr)). rewrite <- E1, <- E2. exact Hl.
+Qed.
+
+Lemma drain_ep_exit cp e e' rst : drain_ep cp e = (e', rst) -> exit_ep cp e'.
+Proof.
+  unfold drain_ep. destruct (sk e) as [k|] eqn:Esk.
+  - destruct (drain _ _ _ _ _) as [[k' ch'] r'] eqn:Ed. intros [= <- <-].
+    destruct (rd e) as [r|] eqn:Erd; cbn in Ed.
+    + apply drain_exit in Ed as [_ Hx]; [|lia]. intros k0 [= <-] _ Hl. cbn in *.
+      destruct Hx as [Hx|Hx]; [congruence|exact Hx].
+    + apply exit_rd_none. reflexivity.
+  - intros [= <- <-]. now apply exit_sk_none.
+Qed.
+
+Ltac exit_fin H :=
+  first
+  [ exact H
+  | apply exit_sk_none; reflexivity
+  | apply exit_rd_none; reflexivity
+  | eapply exit_same; [| | |exact H]; cbn; solve [reflexivity|congruence|discriminate|auto] ].
+
+Ltac exsimp Esk H :=
+  cbn in *; try exact H; try (apply exit_sk_none; reflexivity); try (apply exit_rd_none; reflexivity);
+  try (eapply exit_same; [| | |exact H]; unfold rx_of; cbn; rewrite ?Esk; auto).
+
+Lemma try_write_exit pf s z bs : exit_all s -> exit_all (fst (op_try_write pf s z bs)).
+Proof.
+  intros H y. specialize (H y). unfold op_try_write.
+  destruct (wr (eps s z)) as [sh|] eqn:Ewr; [|exact H].
+  destruct (pf && sh) eqn:E1; [exact H|].
+  destruct bs as [|b0 bs]; [exact H|].
+  destruct sh; [exact H|].
+  destruct (cred s z) as [|c] eqn:Ec; [destruct pf; exact H|].
+  unfold stamp_send. cbn [eps set_cred].
+  destruct (sk (eps s z)) as [k|] eqn:Esk; cbn [fst]; [|exact H].
+  unfold emit, net_send. cbn [cut set_gsent set_ep set_cred].
+  destruct (cut s z) eqn:Ecut; destruct y, z; exsimp Esk H.
+Qed.
+
+Lemma shutdown_exit s z : exit_all s -> exit_all (fst (op_shutdown s z)).
+Proof.
+  intros H y. specialize (H y). unfold op_shutdown.
+  destruct (wr (eps s z)) as [[|]|] eqn:Ewr; try exact H.
+  unfold stamp_send.
+  destruct (sk (eps s z)) as [k|] eqn:Esk; cbn [fst]; [|exact H].
+  unfold emit, net_send. cbn [cut set_gsent set_ep].
+  destruct (cut s z) eqn:Ecut; destruct y, z; exsimp Esk H.
+Qed.
+
+Lemma drop_w_exit s z : exit_all s -> exit_all (fst (op_drop_w s z)).
+Proof.
+  intros H y. specialize (H y). unfold op_drop_w.
+  destruct (wr (eps s z)) as [sh|] eqn:Ewr; [|exact H].
+  destruct sh.
+  - cbn [fst]. destruct (sk (eps s z)) as [k|] eqn:Esk; [destruct (refs k) as [|[|n]] eqn:Er|];
+      destruct y, z; cbn; rewrite ?Esk; cbn; rewrite ?Er; exsimp Esk H.
+  - unfold stamp_send.
+    destruct (sk (eps s z)) as [k|] eqn:Esk; cbn [fst].
+    + unfold emit, net_send. cbn [cut set_gsent set_ep].
+      destruct (cut s z) eqn:Ecut; destruct (refs k) as [|[|n]] eqn:Er;
+        destruct y, z; cbn; rewrite ?Er; exsimp Esk H.
+    + destruct y, z; cbn; rewrite ?Esk; exsimp Esk H.
+Qed.
+
+Lemma read_exit s z n : exit_all s -> exit_all (fst (op_read s z n)).
+Proof.
+  intros H y. specialize (H y). unfold op_read.
+  destruct (rd (eps s z)) as [r|] eqn:Erd; [|exact H].
+  destruct (closed r || Nat.eqb n 0) eqn:Ecl; [exact H|].
+  destruct (stash r) as [bs|] eqn:Est.
+  - destruct (take_stash bs n) as [out rest] eqn:Et. cbn [fst].
+    destruct y, z; cbn; try exact H;
+      (eapply exit_same; [| | |exact H]; unfold rx_of; cbn; auto; intros _; congruence).
+  - destruct (chan (eps s z)) as [|sg ch] eqn:Ech; [exact H|].
+    unfold after_pop.
+    destruct y, z; cbn [eps set_gpop set_ep cap upd side_eqb other];
+      match goal with |- context [drain_ep ?c ?e] => destruct (drain_ep c e) as [e1 rst] eqn:Ed end;
+      pose proof (drain_ep_exit _ _ _ _ Ed) as Hx;
+      (destruct sg as [bs|]; [destruct (take_stash bs n) as [out rest] eqn:Et|]); cbn [fst];
+      cbn; try exact H;
+      (eapply exit_same; [| | |exact Hx]; unfold rx_of; cbn; auto;
+       pose proof (drain_ep_frame _ _ _ _ Ed) as (_ & _ & Fr); cbn in Fr; intros _; congruence).
+Qed.
+
+Lemma peek_exit s z n : exit_all s -> exit_all (fst (op_peek s z n)).
+Proof.
+  intros H y. specialize (H y). unfold op_peek.
+  destruct (rd (eps s z)) as [r|] eqn:Erd; [|exact H].
+  destruct (closed r || Nat.eqb n 0) eqn:Ecl; [exact H|].
+  destruct (stash r) as [bs|] eqn:Est; [exact H|].
+  destruct (chan (eps s z)) as [|sg ch] eqn:Ech; [exact H|].
+  unfold after_pop.
+  destruct y, z; cbn [eps set_gpop set_ep cap upd side_eqb other];
+    match goal with |- context [drain_ep ?c ?e] => destruct (drain_ep c e) as [e1 rst] eqn:Ed end;
+    pose proof (drain_ep_exit _ _ _ _ Ed) as Hx;
+    destruct sg as [bs|]; cbn [fst]; cbn; try exact H;
+    (eapply exit_same; [| | |exact Hx]; unfold rx_of; cbn; auto;
+     pose proof (drain_ep_frame _ _ _ _ Ed) as (_ & _ & Fr); cbn in Fr; intros _; congruence).
+Qed.
+
+Lemma drop_r_exit s z : exit_all s -> exit_all (fst (op_drop_r s z)).
+Proof.
+  intros H y. specialize (H y). unfold op_drop_r.
+  destruct (rd (eps s z)) as [r|] eqn:Erd; [|exact H].
+  match goal with |- context [if ?c then _ else _] => destruct c end; cbn [fst].
+  - unfold emit, net_send. cbn [cut set_ep].
+    destruct (cut s z); destruct y, z; cbn; try exact H; apply exit_rd_none; reflexivity.
+  - destruct y, z; cbn; try exact H; apply exit_rd_none; reflexivity.
+Qed.
+
+Lemma deliver1_exit s z p : exit_all s -> exit_all (deliver1 s z p).
+Proof.
+  intros H y. unfold deliver1, recv_ep.
+  destruct p as [q sg|].
+  - destruct (sk (eps s z)) as [k|] eqn:Esk.
+    + match goal with |- context [drain_ep ?c ?e] => destruct (drain_ep c e) as [e1 rst] eqn:Ed end.
+      pose proof (drain_ep_exit _ _ _ _ Ed) as Hx.
+      destruct rst; cbn [fst snd].
+      * cbn [lo set_ep]. destruct (lo s).
+        -- destruct y, z; cbn; try exact Hx; try (apply exit_sk_none; reflexivity).
+        -- unfold net_send. cbn [cut set_ep]. destruct (cut s z); destruct y, z; cbn; try exact Hx; apply H.
+      * destruct y, z; cbn; try exact Hx; apply H.
+    + cbn [fst snd lo set_ep]. destruct (lo s).
+      * destruct y, z; cbn; try (apply exit_sk_none; reflexivity); try (apply exit_sk_none; exact Esk).
+      * unfold net_send. cbn [cut set_ep]. destruct (cut s z); destruct y, z; cbn; apply H.
+  - cbn [fst snd]. destruct y, z; cbn; try (apply exit_sk_none; reflexivity); apply H.
+Qed.
+
+Lemma deliver1_cap s z p : cap (deliver1 s z p) = cap s.
+Proof.
+  unfold deliver1. destruct (recv_ep (cap s) (eps s z) p) as [e [|r l]]; cbn; [reflexivity|].
+  destruct (lo s); cbn; [reflexivity|]. unfold net_send. cbn. destruct (cut s z); reflexivity.
+Qed.
+
+Lemma deliver_list_exit l : forall s z, exit_all s -> exit_all (deliver_list s z l).
+Proof. induction l as [|p l IH]; intros s z H; cbn; [exact H|]. apply IH, deliver1_exit, H. Qed.
+
+Lemma loop_fold_exit pend : forall s, exit_all s ->
+  exit_all (fold_left (fun s' m => deliver1 s' (other (fst m)) (snd m)) pend s).
+Proof. induction pend as [|m pend IH]; intros s H; cbn; [exact H|]. apply IH, deliver1_exit, H. Qed.
+
+Theorem step_exit s e : exit_all s -> exit_all (fst (step s e)).
+Proof.
+  intros H. destruct e; cbn [step fst].
+  - apply try_write_exit, H.
+  - apply try_write_exit, H.
+  - apply shutdown_exit, H.
+  - apply drop_w_exit, H.
+  - apply read_exit, H.
+  - apply peek_exit, H.
+  - apply drop_r_exit, H.
+  - unfold mature. destruct (split_wire 0 ks (wire s)). exact H.
+  - unfold mature. destruct (split_wire _ _ (wire s)). exact H.
+  - apply deliver_list_exit. exact H.
+  - exact H.
+  - exact H.
+  - exact H.
+  - exact H.
+  - intros y. apply (loop_fold_exit _ (set_wire s (skipn (lmark s) (wire s))) H y).
+  - exact H.
+Qed.
+
+Lemma init_exit cp loop : exit_all (init cp loop).
+Proof. intros y k. cbn. intros [= <-] _. cbn. congruence. Qed.
+
+Theorem reach_exit cp loop es : exit_all (final (init cp loop) es).
+Proof.
+  assert (G : forall s, exit_all s -> exit_all (final s es)).
+  { induction es as [|e es IH]; intros s H; cbn; [exact H|]. apply IH, step_exit, H. }
+  apply G, init_exit.
+Qed.
+
+(* ---- C02 statements about the reorder buffer and credits ------------------------------ *)
+
+Lemma c02_no_overflow_lemma cp loop es y k sg :
+  let s := final (init cp loop) es in
+  sk (eps s y) = Some k -> rd (eps s y) <> None ->
+  lookup (recv_seq k + 1)%N (buf k) = Some sg ->
+  sg = Fin /\ length (chan (eps s y)) = cap s.
+Proof.
+  intros s Hk Hrd Hlk.
+  assert (Hfull : length (chan (eps s y)) = cap s).
+  { apply (reach_exit cp loop es y k Hk Hrd). congruence. }
+  split; [|exact Hfull].
+  pose proof (reach_inv cp loop es (other y)) as H. fold s in H. unfold dirinv in H.
+  replace (other (other y)) with y in H by (destruct y; reflexivity).
+  unfold rx_of in H. rewrite Hk in H. eapply DI_full_fin; eauto.
+Qed.
+
+Lemma c02_credits_lemma cp loop es x :
+  let s := final (init cp loop) es in
+  cred s x + ndata_pkt (pkts_from x (wire s)) + ndata_pkt (rdy s (other x)) +
+  ndata_buf (rx_buf (rx_of (eps s (other x)))) + ndata_seg (chan (eps s (other x))) <= cap s.
+Proof. intros s. pose proof (reach_inv cp loop es x) as H. destruct H. assumption. Qed.
+
+Lemma c02_wouldblock_lemma s x bs :
+  wr (eps s x) = Some false -> bs <> [] ->
+  (snd (step s (TryWrite x bs)) = RErr WouldBlock <-> cred s x = 0).
+Proof.
+  intros Hw Hbs. cbn [step]. unfold op_try_write. rewrite Hw. cbn [andb].
+  destruct bs as [|b0 bs]; [congruence|].
+  destruct (cred s x) as [|c]; cbn; [tauto|].
+  destruct (stamp_send _ _ _); cbn; split; intros; discriminate.
+Qed.
+
+(* ---- completeness: repeated reads end with EOF after every accepted byte ------------------ *)
+
+Definition quiet (s : sys) (x : side) : Prop :=
+  forall q sg, ~ In (PSeg q sg) (pkts_from x (wire s) ++ rdy s (other x)).
+(* nothing of direction x was ever cut off, nothing is in flight any more, the
+   writer has closed (FIN stamped), the receiving socket and its reader are alive *)
+Definition graceful (s : sys) (x : side) : Prop :=
+  glost s x = false /\ quiet s x /\ In Fin (gsent s x) /\
+  sk (eps s (other x)) <> None /\ rd (eps s (other x)) <> None.
+
+Definition wsum (l : list seg) : nat := fold_right (fun sg a => S (length (payload sg)) + a) 0 l.
+Definition remaining (s : sys) (x : side) : nat :=
+  match rd (eps s (other x)) with Some r => length (stash_bytes r) | None => 0 end +
+  wsum (skipn (gpop s (other x)) (gsent s x)).
+
+Lemma take_stash_spec bs n : take_stash bs n = (firstn n bs, snd (take_stash bs n)) /\
+  stash_bytes {| stash := snd (take_stash bs n); closed := false |} = skipn n bs.
+Proof.
+  unfold take_stash, stash_bytes. cbn. split; [reflexivity|]. destruct (skipn n bs); reflexivity.
+Qed.
+
+Lemma firstn_nonempty {T} (l : list T) n : l <> [] -> 0 < n -> firstn n l <> [].
+Proof. destruct l, n; cbn; intros; try lia; congruence. Qed.
+
+Lemma skipn_shorter {T} (l : list T) n : l <> [] -> 0 < n -> length (skipn n l) < length l.
+Proof. intros Hl Hn. rewrite skipn_length. destruct l; [congruence|cbn [length]; lia]. Qed.
+
+Lemma read_progress s x n :
+  dirinv s x -> exit_all s -> graceful s x -> 0 < cap s -> 0 < n ->
+  graceful (fst (op_read s (other x) n)) x /\
+  ((snd (op_read s (other x) n) = ROkBytes [] /\
+    gread (fst (op_read s (other x) n)) (other x) = bytes_of (gsent (fst (op_read s (other x) n)) x)) \/
+   (exists bs, snd (op_read s (other x) n) = ROkBytes bs /\ bs <> [] /\
+               remaining (fst (op_read s (other x) n)) x < remaining s x)).
+Proof.
+  intros H Hex (Hlost & Hquiet & Hfin & Hsk & Hrd) Hcap Hn.
+  pose proof (read_inv s (other x) n x H) as H'.
+  pose proof (Hex (other x)) as Hexy.
+  unfold op_read in *.
+  destruct (rd (eps s (other x))) as [r|] eqn:Erd; [|congruence].
+  destruct (closed r) eqn:Ecl; cbn [orb] in *.
+  - cbn [fst snd]. split; [repeat split; auto; congruence|]. left. split; [reflexivity|].
+    unfold dirinv in H. rewrite Erd in H. eapply DI_eof; eauto.
+  - destruct (Nat.eqb_spec n 0) as [->|_]; [lia|].
+    destruct (stash r) as [bs|] eqn:Est.
+    + destruct (take_stash_spec bs n) as [Et Es]. rewrite Et in *. cbn [fst snd] in *.
+      assert (Hbs : bs <> []).
+      { unfold dirinv in H. rewrite Erd in H. eapply (d_st _ _ _ _ _ _ _ _ _ _ _ _ _ _ H); eauto. }
+      split.
+      * unfold graceful, quiet in *. destruct x; cbn in *; repeat split; auto; discriminate.
+      * right. exists (firstn n bs). split; [reflexivity|]. split; [now apply firstn_nonempty|].
+        unfold remaining. destruct x; cbn [other] in *; cbn; rewrite Erd; rewrite Es;
+          unfold stash_bytes; rewrite Est; apply Nat.add_lt_mono_r; now apply skipn_shorter.
+    + destruct (sk (eps s (other x))) as [k|] eqn:Esk; [clear Hsk|congruence].
+      assert (Hdc := d_c _ _ _ _ _ _ _ _ _ _ _ _ _ _ H). destruct Hdc as [rest0 Hdc].
+      destruct (chan (eps s (other x))) as [|sg ch] eqn:Ech.
+      * exfalso. unfold dirinv, rx_of in H. rewrite Erd, Esk, Ech, Hlost in H.
+        eapply DI_no_pending; eauto.
+        intros Hl. symmetry. rewrite <- (Hexy k Esk ltac:(congruence) Hl). now rewrite Ech.
+      * assert (Hw : wsum (skipn (gpop s (other x)) (gsent s x)) =
+                     S (length (payload sg)) + wsum (skipn (S (gpop s (other x))) (gsent s x))).
+        { rewrite (skipn_S_nth _ _ _ _ Hdc), Hdc. reflexivity. }
+        assert (Hin : In sg (gsent s x)).
+        { rewrite <- (firstn_skipn (gpop s (other x)) (gsent s x)), Hdc. apply in_or_app. right. now left. }
+        unfold after_pop in *.
+        destruct x; cbn [other eps set_gpop set_ep cap upd side_eqb] in *;
+          match goal with |- context [drain_ep ?c ?e] => destruct (drain_ep c e) as [e1 rst] eqn:Ed end;
+          pose proof (drain_ep_frame _ _ _ _ Ed) as (Fn & Fw & Fr); unfold next_of in Fn; cbn in Fn, Fr;
+          rewrite Esk in Fn; destruct (sk e1) as [k1|] eqn:Esk1; try discriminate;
+          (destruct sg as [bs|]; [destruct (take_stash_spec bs n) as [Et Es]; rewrite Et in *|]);
+          cbn [fst snd] in *.
+        all: split;
+          [unfold graceful, quiet in *; cbn in *; rewrite ?Esk1; repeat split; auto; discriminate|].
+        1,3: right; exists (firstn n bs); split; [reflexivity|]; split;
+          [apply firstn_nonempty; [|exact Hn]; eapply (d_dat _ _ _ _ _ _ _ _ _ _ _ _ _ _ H); exact Hin|];
+          unfold remaining; cbn [other eps set_gread set_ep set_cred set_gpop upd side_eqb rd set_rd gpop gsent];
+          rewrite Erd, Es, Hw; unfold stash_bytes; rewrite Est; cbn [length payload];
+          pose proof (skipn_length n bs); lia.
+        all: left; split; [reflexivity|]; unfold dirinv in H'; cbn in H'; eapply DI_eof; [exact H'|reflexivity].
+Qed.
+
+Lemma deliver_list_cap l : forall s z, cap (deliver_list s z l) = cap s.
+Proof. induction l as [|p l IH]; intros s z; cbn; [reflexivity|]. rewrite IH. apply deliver1_cap. Qed.
+
+Lemma loop_fold_cap pend : forall s,
+  cap (fold_left (fun s' m => deliver1 s' (other (fst m)) (snd m)) pend s) = cap s.
+Proof. induction pend as [|m pend IH]; intros s; cbn; [reflexivity|]. rewrite IH. apply deliver1_cap. Qed.
+
+Lemma step_cap s e : cap (fst (step s e)) = cap s.
+Proof.
+  destruct e; cbn [step].
+  - unfold op_try_write, stamp_send, emit, net_send.
+    destruct (wr (eps s x)) as [[|]|]; destruct bs; cbn; auto; destruct (cred s x); cbn; auto;
+      destruct (sk (eps s x)); cbn; auto; destruct (cut s x); cbn; auto.
+  - unfold op_try_write, stamp_send, emit, net_send.
+    destruct (wr (eps s x)) as [[|]|]; destruct bs; cbn; auto; destruct (cred s x); cbn; auto;
+      destruct (sk (eps s x)); cbn; auto; destruct (cut s x); cbn; auto.
+  - unfold op_shutdown, stamp_send, emit, net_send.
+    destruct (wr (eps s x)) as [[|]|]; cbn; auto; destruct (sk (eps s x)); cbn; auto; destruct (cut s x); cbn; auto.
+  - unfold op_drop_w, stamp_send, emit, net_send.
+    destruct (wr (eps s x)) as [[|]|]; cbn; auto; destruct (sk (eps s x)); cbn; auto; destruct (cut s x); cbn; auto.
+  - unfold op_read, after_pop.
+    destruct (rd (eps s x)) as [r|]; cbn; auto. destruct (closed r || Nat.eqb n 0); cbn; auto.
+    destruct (stash r) as [bs|]; [destruct (take_stash bs n); cbn; auto|].
+    destruct (chan (eps s x)) as [|[bs|] ch]; cbn; auto.
+  - unfold op_peek, after_pop.
+    destruct (rd (eps s x)) as [r|]; cbn; auto. destruct (closed r || Nat.eqb n 0); cbn; auto.
+    destruct (stash r) as [bs|]; cbn; auto.
+    destruct (chan (eps s x)) as [|[bs|] ch]; cbn; auto.
+  - unfold op_drop_r, emit, net_send.
+    destruct (rd (eps s x)) as [r|]; cbn; auto.
+    match goal with |- context [if ?c then _ else _] => destruct c end; cbn; auto. destruct (cut s x); cbn; auto.
+  - unfold mature. destruct (split_wire 0 ks (wire s)). reflexivity.
+  - unfold mature. destruct (split_wire _ _ (wire s)). reflexivity.
+  - cbn. now rewrite deliver_list_cap.
+  - reflexivity.
+  - reflexivity.
+  - reflexivity.
+  - reflexivity.
+  - cbn. now rewrite loop_fold_cap.
+  - reflexivity.
+Qed.
+
+Lemma final_cap es : forall s, cap (final s es) = cap s.
+Proof. induction es as [|e es IH]; intros s; cbn; [reflexivity|]. rewrite IH. apply step_cap. Qed.
+
+(* read with a buffer of n bytes until a read returns 0 bytes; None if a read
+   pends, fails or the fuel runs out *)
+Fixpoint read_to_eof (fuel : nat) (s : sys) (y : side) (n : nat) : option (sys * list (list N)) :=
+  match fuel with
+  | O => None
+  | S f =>
+      match op_read s y n with
+      | (s', ROkBytes []) => Some (s', [])
+      | (s', ROkBytes bs) =>
+          match read_to_eof f s' y n with Some (s'', l) => Some (s'', bs :: l) | None => None end
+      | _ => None
+      end
+  end.
+
+Lemma read_to_eof_complete fuel : forall s x n,
+  dirinv s x -> exit_all s -> graceful s x -> 0 < cap s -> 0 < n -> remaining s x < fuel ->
+  exists s' chunks,
+    read_to_eof fuel s (other x) n = Some (s', chunks) /\
+    (forall c, In c chunks -> c <> []) /\
+    gread s' (other x) = gread s (other x) ++ concat chunks /\
+    gread s' (other x) = bytes_of (gsent s x).
+Proof.
+  induction fuel as [|fuel IH]; intros s x n H Hex Hg Hcap Hn Hrem; [lia|].
+  destruct (read_progress s x n H Hex Hg Hcap Hn) as [Hg' Hcase].
+  pose proof (step_ghost s (Read (other x) n)) as G. cbn [step] in G.
+  destruct (G x) as [G1 _]. destruct (G (other x)) as [_ G2]. clear G.
+  pose proof (read_inv s (other x) n x H) as H'.
+  pose proof (read_exit s (other x) n Hex) as Hex'.
+  pose proof (step_cap s (Read (other x) n)) as Hc'. cbn [step] in Hc'.
+  cbn [read_to_eof]. destruct (op_read s (other x) n) as [s1 o] eqn:E. cbn [fst snd] in *.
+  destruct Hcase as [[-> Heof]|(bs & -> & Hbs & Hlt)].
+  - exists s1, []. cbn in G1, G2. rewrite !app_nil_r in *. repeat split; auto; try tauto.
+    + rewrite G2. destruct (side_eqb (other x) (other x)); now rewrite app_nil_r.
+    + rewrite Heof. exact G1.
+  - cbn in G1, G2. replace (side_eqb (other x) (other x)) with true in G2 by (destruct x; reflexivity).
+    rewrite app_nil_r in G1.
+    destruct (IH s1 x n H' Hex' Hg' ltac:(lia) Hn ltac:(lia)) as (s2 & chunks & R1 & R2 & R3 & R4).
+    destruct bs as [|b0 bs]; [congruence|]. rewrite R1.
+    exists s2, ((b0 :: bs) :: chunks). repeat split.
+    + intros c [<-|Hc]; [discriminate|auto].
+    + rewrite R3, G2. cbn [concat]. now rewrite <- app_assoc.
+    + rewrite R4. exact G1.
+Qed.
+
+Lemma c02_complete_lemma cp loop es x n :
+  0 < cp -> 0 < n ->
+  graceful (final (init cp loop) es) x ->
+  exists s' chunks,
+    read_to_eof (S (remaining (final (init cp loop) es) x)) (final (init cp loop) es) (other x) n
+      = Some (s', chunks) /\
+    (forall c, In c chunks -> c <> []) /\
+    reads (other x) es (snd (run (init cp loop) es)) ++ concat chunks
+      = accepted x es (snd (run (init cp loop) es)).
+Proof.
+  intros Hcp Hn Hg.
+  destruct (read_to_eof_complete (S (remaining (final (init cp loop) es) x)) (final (init cp loop) es) x n)
+    as (s' & chunks & R1 & R2 & R3 & R4); auto.
+  - apply reach_inv.
+  - apply reach_exit.
+  - rewrite final_cap. exact Hcp.
+  - exists s', chunks. repeat split; auto.
+    destruct (run_ghost es (init cp loop) x) as [G1 _].
+    destruct (run_ghost es (init cp loop) (other x)) as [_ G2]. rewrite run_final in G1, G2. cbn in G1, G2.
+    rewrite <- G2, <- G1, <- R3. exact R4.
+Qed.
+
+Lemma firstn_plus {T} (l : list T) n k : firstn (n + k) l = firstn n l ++ firstn k (skipn n l).
+Proof.
+  revert l; induction n as [|n IH]; intros l; cbn; [reflexivity|].
+  destruct l; cbn; [now rewrite firstn_nil|]. f_equal. apply IH.
+Qed.
+
+(* a peek followed by a read: the two results start with the same bytes *)
+Lemma c02_peek_then_read_lemma s y n m s1 bs s2 rs :
+  step s (Peek y n) = (s1, ROkBytes bs) -> step s1 (Read y m) = (s2, ROkBytes rs) -> 0 < m ->
+  prefix bs rs \/ prefix rs bs.
+Proof.
+  cbn [step]. intros Hp Hr Hm.
+  assert (Hcases : bs = [] \/ exists full r', rd (eps s1 y) = Some r' /\ stash r' = Some full /\
+                                        closed r' = false /\ bs = firstn n full).
+  { unfold op_peek, after_pop in Hp. destruct (rd (eps s y)) as [r|] eqn:Erd; [|discriminate].
+    destruct (closed r || Nat.eqb n 0) eqn:E0; [injection Hp as <- <-; now left|].
+    apply orb_false_iff in E0 as [Ecl _].
+    destruct (stash r) as [full|] eqn:Est.
+    - injection Hp as <- <-. right. exists full, r. auto.
+    - destruct (chan (eps s y)) as [|[full|] ch]; [destruct (is_some _); discriminate| |].
+      + injection Hp as <- <-. right. exists full. destruct y; cbn; eexists; repeat split; reflexivity.
+      + injection Hp as <- <-. now left. }
+  destruct Hcases as [->|(full & r' & Hrd & Hst & Hcl & ->)]; [left; exists rs; reflexivity|].
+  unfold op_read in Hr. rewrite Hrd, Hcl, Hst in Hr. cbn [orb] in Hr.
+  destruct (Nat.eqb_spec m 0) as [->|_]; [lia|].
+  destruct (take_stash_spec full m) as [Et _]. rewrite Et in Hr. injection Hr as _ <-.
+  destruct (Nat.le_ge_cases n m) as [Hle|Hge].
+  - left. exists (firstn (m - n) (skipn n full)).
+    replace m with (n + (m - n)) at 1 by lia. apply firstn_plus.
+  - right. exists (firstn (n - m) (skipn m full)).
+    replace n with (m + (n - m)) at 1 by lia. apply firstn_plus.
+Qed.
